@@ -42,9 +42,19 @@ OpenDet(f, o, e, stream) ==
 
 \* ---- queries -----------------------------------------------------------------------------
 \* notes with positions relative to the file (slice parser) or to the returned buffer (stream)
+LC(b, rng) == [len |-> rng[2], ck |-> Ck(Bytes(b, rng))]
+RelNote(n, b) ==
+    CASE n.k = "any" -> [k |-> "any", n_type |-> n.n_type, name |-> LC(b, n.name), desc |-> LC(b, n.desc),
+                         name_str |-> IF n.name_str.out = "ok" THEN [out |-> "ok", len |-> n.name_str.s[2]] ELSE [out |-> "err"]]
+      [] n.k = "buildid" -> [k |-> "buildid", desc |-> LC(b, n.desc)]
+      [] OTHER -> n
 NotesJ(f, eb, d, alignW, stream) ==
-    LET ns == IF stream THEN Notes(eb.little, alignW, FSub(f, d.start, d.len)) ELSE NotesAt(f, eb, d.start, d.len, alignW)
-    IN [n |-> Len(ns), items |-> ns]
+    IF stream
+    THEN LET b == FSub(f, d.start, d.len)
+             ns == Notes(eb.little, alignW, b)
+         IN [n |-> Len(ns), items |-> [i \in 1..Len(ns) |-> RelNote(ns[i], b)]]
+    ELSE LET ns == NotesAt(f, eb, d.start, d.len, alignW)
+         IN [n |-> Len(ns), items |-> ns]
 
 RelsJ(f, eb, ty, d) ==
     LET items == IterAll(ty, eb.class, eb.little, FSub(f, d.start, d.len))
@@ -161,6 +171,71 @@ CommonHash(f, eb, e) ==
              /\ \A j \in 1..Len(e.names) :
                   FindMatch(e.res.gnu.finds[j],
                             FindJ(GnuFind(eb.class, eb.little, FSub(f, c.gnu_hash.start, c.gnu_hash.len), sy, st, e.names[j])))
+
+
+\* ---- the byte ranges a query designates (C08 laziness, C07 content) ------------------------
+\* sequences of [start, len]; only ranges that lie inside the file are listed
+RangeSeq(r) == IF r.ok THEN << <<r.start, r.len>> >> ELSE <<>>
+ShRange(f, s) == RangeSeq(Range(f, s["sh_offset"], s["sh_size"]))
+LinkRange(f, eb, s) == LET l == ShdrGet(f, eb, ZExt(s["sh_link"], 8)) IN IF l.ok THEN ShRange(f, l.f) ELSE <<>>
+
+QRanges(f, eb, e, stream) ==
+    LET n == e.name IN
+    CASE n \in {"shdrs_with_strtab", "shdr_by_name"} ->
+            (LET s == IF stream THEN ShStrTabS(f, eb) ELSE ShStrTab(f, eb)
+             IN IF s.ok /\ s.some THEN << <<s.start, s.len>> >> ELSE <<>>)
+      [] n = "section_data" ->
+            IF Val(e.shdr["sh_type"]) = SHT_NOBITS THEN <<>> ELSE ShRange(f, e.shdr)
+      [] n \in {"section_data_as_strtab", "section_data_as_rels", "section_data_as_relas", "section_data_as_notes"} ->
+            ShRange(f, e.shdr)
+      [] n \in {"segment_data", "segment_data_as_notes"} -> RangeSeq(Range(f, e.phdr["p_offset"], e.phdr["p_filesz"]))
+      [] n \in {"symbol_table", "dynamic_symbol_table"} ->
+            (LET i == FirstShType(f, eb, IF n = "symbol_table" THEN SHT_SYMTAB ELSE SHT_DYNSYM, 0)
+             IN IF i < 0 THEN <<>> ELSE ShRange(f, ShdrAt(f, eb, i)) \o LinkRange(f, eb, ShdrAt(f, eb, i)))
+      [] n = "dynamic" ->
+            (LET d == Dynamic(f, eb, stream) IN IF d.out = "ok" THEN << <<d.start, d.len>> >> ELSE <<>>)
+      [] n = "symbol_version_table" ->
+            (IF NSh(eb) = 0 THEN <<>>
+             ELSE LET sc == VerScan(f, eb, 0, -1, -1, -1)
+                      P(i) == IF i < 0 THEN <<>> ELSE ShRange(f, ShdrAt(f, eb, i)) \o LinkRange(f, eb, ShdrAt(f, eb, i))
+                  IN IF sc[1] < 0 THEN <<>> ELSE ShRange(f, ShdrAt(f, eb, sc[1])) \o P(sc[2]) \o P(sc[3]))
+      [] OTHER -> <<>>
+
+\* open: the file header, shdr[0] when extended numbering needs it, and the two header tables
+OpenRanges(f, spec) ==
+    LET e == ParseEhdr(f, spec)
+        hs == << <<0, 16>>, <<16, 48>> >>
+    IN IF ~e.ok THEN hs
+       ELSE LET es == EntSz("shdr", e.h.class)
+                o == Val(e.h["e_shoff"])
+                s0 == IF o # Huge /\ o <= f.len /\ o + es <= f.len THEN << <<o, es>> >> ELSE <<>>
+                sh == FindShdrs(f, e.h)
+                ph == FindPhdrs(f, e.h)
+            IN hs \o s0
+                  \o (IF sh.ok /\ sh.t # <<>> THEN << <<sh.t.off, sh.t.n * es>> >> ELSE <<>>)
+                  \o (IF ph.ok /\ ph.t # <<>> THEN << <<ph.t.off, ph.t.n * EntSz("phdr", e.h.class)>> >> ELSE <<>>)
+
+\* every byte actually read lies inside a designated range
+ReadsWithin(io, ranges) ==
+    \A k \in 1..Len(io) :
+        (io[k].op = "read" /\ io[k].got > 0) =>
+            \E j \in 1..Len(ranges) : ranges[j][1] <= io[k].at /\ io[k].at + io[k].got <= ranges[j][1] + ranges[j][2]
+
+\* ---- C07: the stream parser's answer vs the slice parser's on the same file -----------------
+ExactC07 == {"section_data", "symbol_table", "dynamic_symbol_table", "symbol_version_table", "segment_data_as_notes"}
+FirstDynCompressed(f, eb) ==
+    LET i == FirstShType(f, eb, SHT_DYNAMIC, 0) IN i >= 0 /\ Bit(ShdrAt(f, eb, i)["sh_flags"], SHF_COMPRESSED_BIT) = 1
+InScopeC07(f, eb, e) ==
+    /\ (eb.sh = <<>> \/ eb.sh.n > 0)
+    /\ HasK(e, "shdr") => Bit(e.shdr["sh_flags"], SHF_COMPRESSED_BIT) = 0
+    /\ e.name = "dynamic" => ~FirstDynCompressed(f, eb)
+RelC07(f, eb, e) ==
+    InScopeC07(f, eb, e) =>
+        LET a == QOut(f, eb, e, FALSE)
+            b == QOut(f, eb, e, TRUE)
+        IN /\ a \in {"ok", "none"} => b = a
+           /\ e.name \in ExactC07 => a = b
+           /\ (a = "ok" /\ b = "ok") => QRanges(f, eb, e, FALSE) = QRanges(f, eb, e, TRUE)
 
 \* does recorded query event e (result e.res) agree with the semantics on file f / handle eb?
 QueryOk(f, eb, e, stream) ==
